@@ -414,6 +414,189 @@ theorem extract_str_roundtrip (b s : Str) (hb : GoodBase b) (hs : GoodStr s) :
 example : GoodStr ['b', 'a', 'r', ' ', 'b', 'a', 'z'] := by
   refine ⟨by decide, by decide, by decide, by decide, by decide⟩
 
+/-! ### float defaults ("a float stays a float") -/
+
+theorem takeWhile_digits_dot (a rest : Str) (ha : ∀ c ∈ a, c.isDigit = true) :
+    (a ++ '.' :: rest).takeWhile isAsciiDigit = a := by
+  induction a with
+  | nil =>
+    have : isAsciiDigit '.' = false := by decide
+    simp [List.takeWhile_cons, this]
+  | cons c cs ih =>
+    have hc : isAsciiDigit c = true := by rw [isAsciiDigit_eq]; exact ha c (by simp)
+    simp only [List.cons_append, List.takeWhile_cons, hc, if_true]
+    rw [ih (fun d hd => ha d (by simp [hd]))]
+
+theorem takeDefault_float (a f : Str) (ha : ∀ c ∈ a, c.isDigit = true) (hf : ∀ c ∈ f, c.isDigit = true) (hfne : f ≠ []) :
+    takeDefault 0 (a ++ '.' :: f) = a ++ '.' :: f := by
+  induction a with
+  | nil =>
+    cases f with
+    | nil => exact absurd rfl hfne
+    | cons d ds =>
+      have hdd : d.isDigit = true := hf d (by simp)
+      have hd : isAsciiDigit d = true := by rw [isAsciiDigit_eq]; exact hdd
+      have hbr : (('.' : Char) == '{' || ('.' : Char) == '[' || ('.' : Char) == '(' || ('.' : Char) == ')' || ('.' : Char) == ']' || ('.' : Char) == '}') = false := by decide
+      have hrest := takeDefault_digits 0 (d :: ds) hf
+      show takeDefault 0 ('.' :: d :: ds) = '.' :: d :: ds
+      rw [takeDefault]
+      simp only [hd, Bool.not_true, Bool.and_false, Bool.false_and, Bool.false_eq_true, if_false, hbr]
+      rw [hrest]
+  | cons c cs ih =>
+    have hc : c.isDigit = true := ha c (by simp)
+    have hdot : (c == '.') = false := by
+      cases hd : (c == '.') with
+      | false => rfl
+      | true => have : c = '.' := by simpa using hd
+                subst this; revert hc; decide
+    have hbr : (c == '{' || c == '[' || c == '(' || c == ')' || c == ']' || c == '}') = false := by
+      cases hb' : (c == '{' || c == '[' || c == '(' || c == ')' || c == ']' || c == '}') with
+      | false => rfl
+      | true =>
+        simp only [Bool.or_eq_true, beq_iff_eq] at hb'
+        rcases hb' with ((((rfl | rfl) | rfl) | rfl) | rfl) | rfl <;> revert hc <;> decide
+    simp only [List.cons_append, takeDefault, hdot, Bool.false_and, Bool.false_eq_true, if_false, hbr]
+    rw [ih (fun d hd => ha d (by simp [hd]))]
+
+theorem digit_not_strip (c : Char) (hc : c.isDigit = true) : ([' ', '\t', '`'].contains c) = false := by
+  cases hb : ([' ', '\t', '`'].contains c) with
+  | false => rfl
+  | true =>
+    simp only [List.contains_cons, List.contains_nil, Bool.or_false, Bool.or_eq_true, beq_iff_eq] at hb
+    rcases hb with rfl | rfl | rfl <;> revert hc <;> decide
+
+/-- stripping a character class is the identity when neither the first nor the last character is in it -/
+theorem stripChars_id (c : Char) (t : Str) (cs : List Char) (l : Char) (hl : (c :: t).getLast? = some l)
+    (hc : cs.contains c = false) (hll : cs.contains l = false) : stripChars (c :: t) cs = c :: t := by
+  unfold stripChars lstripChars rstripChars
+  simp only [List.dropWhile_cons, hc, Bool.false_eq_true, if_false]
+  cases hr : (c :: t).reverse with
+  | nil => simp at hr
+  | cons y ys =>
+    have e : (c :: t) = ys.reverse ++ [y] := by
+      have := congrArg List.reverse hr
+      simpa using this
+    have hy : (c :: t).getLast? = some y := by rw [e]; simp
+    rw [hl] at hy
+    cases hy
+    simp only [List.dropWhile_cons, hll, Bool.false_eq_true, if_false]
+    rw [← hr]; simp
+
+/-- the value cascade reads `<digits>.<digits>` as a float with that text -/
+theorem parse_float_text (c : Char) (a f : Str) (hc : c.isDigit = true) (ha : ∀ x ∈ a, x.isDigit = true)
+    (hf : ∀ x ∈ f, x.isDigit = true) (hfne : f ≠ []) :
+    parseDefaultText (c :: a ++ '.' :: f) none = .ok (.float (c :: a ++ '.' :: f)) := by
+  unfold parseDefaultText
+  have hcd : isAsciiDigit c = true := by rw [isAsciiDigit_eq]; exact hc
+  have hdec : isdecimal (c :: a ++ '.' :: f) = false := by
+    unfold isdecimal
+    have : isAsciiDigit '.' = false := by decide
+    simp [List.all_append, this]
+  have hsign : (some c == some '-' || some c == some '+') = false := by
+    cases hb : (some c == some '-' || some c == some '+') with
+    | false => rfl
+    | true =>
+      simp only [Bool.or_eq_true, beq_iff_eq, Option.some.injEq] at hb
+      rcases hb with rfl | rfl <;> revert hc <;> decide
+  have hT : ((c :: a ++ '.' :: f) == sTrue) = false := by
+    cases hb : ((c :: a ++ '.' :: f) == sTrue) with
+    | false => rfl
+    | true =>
+      have := beq_iff_eq.mp hb
+      simp only [sTrue, List.cons_append, List.cons.injEq] at this
+      have := this.1; subst this; revert hc; decide
+  have hF : ((c :: a ++ '.' :: f) == sFalse) = false := by
+    cases hb : ((c :: a ++ '.' :: f) == sFalse) with
+    | false => rfl
+    | true =>
+      have := beq_iff_eq.mp hb
+      simp only [sFalse, List.cons_append, List.cons.injEq] at this
+      have := this.1; subst this; revert hc; decide
+  have hft : isFloatText (c :: a ++ '.' :: f) = true := by
+    unfold isFloatText
+    have hca : ∀ x ∈ c :: a, x.isDigit = true := by
+      intro x hx; simp only [List.mem_cons] at hx; rcases hx with rfl | h
+      · exact hc
+      · exact ha x h
+    simp only [List.cons_append, List.head?_cons, hsign, Bool.false_eq_true, if_false]
+    have htw := takeWhile_digits_dot (c :: a) f hca
+    simp only [List.cons_append] at htw
+    rw [htw]
+    simp only [List.isEmpty_cons, Bool.not_false, Bool.true_and, List.length_cons, List.drop_succ_cons]
+    have hdrop : List.drop a.length (a ++ '.' :: f) = '.' :: f := by
+      rw [List.drop_append]; simp
+    rw [hdrop]
+    simp only [List.head?_cons, beq_self_eq_true, Bool.true_and, List.drop_succ_cons, List.drop_zero]
+    have hfe : f.isEmpty = false := by cases f with | nil => exact absurd rfl hfne | cons _ _ => rfl
+    simp only [hfe, Bool.not_false, Bool.true_and, List.all_eq_true]
+    intro x hx; rw [isAsciiDigit_eq]; exact hf x hx
+  have hcanon : floatCanon (c :: a ++ '.' :: f) = c :: a ++ '.' :: f := by
+    unfold floatCanon
+    have : (some c == some '+') = false := by
+      cases hb : (some c == some '+') with
+      | false => rfl
+      | true => simp only [beq_iff_eq, Option.some.injEq] at hb; subst hb; revert hc; decide
+    simp [this]
+  simp only [List.cons_append] at hdec hT hF hft hcanon ⊢
+  simp only [Bool.false_and, Bool.false_eq_true, if_false, hdec, List.head?_cons, hsign, hT, hF, hft, if_true, hcanon]
+
+/-- **Default ↔ prose, non-negative decimals** `<digits>.<digits>` ("a float stays a float"): the text is read back as a
+    float whose `repr` text is the emitted one (the generator only emits decimals with `repr(float(s)) == s`). -/
+theorem extract_float_roundtrip (b : Str) (c : Char) (a f : Str) (hb : GoodBase b) (hc : c.isDigit = true)
+    (ha : ∀ x ∈ a, x.isDigit = true) (hf : ∀ x ∈ f, x.isDigit = true) (hfne : f ≠ []) :
+    extractDefault (b ++ defaultsTo ++ (c :: a ++ '.' :: f)) none true
+      = .ok (b ++ defaultsTo ++ (c :: a ++ '.' :: f), some (.float (c :: a ++ '.' :: f))) := by
+  unfold extractDefault
+  have hca : ∀ x ∈ c :: a, x.isDigit = true := by
+    intro x hx; simp only [List.mem_cons] at hx; rcases hx with rfl | h
+    · exact hc
+    · exact ha x h
+  have hlow : lower (c :: a ++ '.' :: f) = c :: a ++ '.' :: f := by
+    have e : (c :: a ++ '.' :: f) = (c :: a) ++ ('.' :: f) := rfl
+    rw [e, lower_append, lower_digits _ hca]
+    have : lower ('.' :: f) = '.' :: f := by
+      have h2 := lower_digits f hf
+      unfold lower at h2 ⊢
+      simp only [List.map_cons, h2]; congr 1
+    rw [this]
+  have hval : '(' ∉ (c :: a ++ '.' :: f) := by
+    intro h
+    have hx : ∀ x ∈ (c :: a ++ '.' :: f), x.isDigit = true ∨ x = '.' := by
+      intro x hx
+      simp only [List.cons_append, List.mem_cons, List.mem_append] at hx
+      rcases hx with rfl | hx | rfl | hx
+      · exact Or.inl hc
+      · exact Or.inl (ha x hx)
+      · exact Or.inr rfl
+      · exact Or.inl (hf x hx)
+    rcases hx '(' h with h1 | h1
+    · revert h1; decide
+    · revert h1; decide
+  have hp : '(' ∉ lower (b ++ defaultsTo ++ (c :: a ++ '.' :: f)) := by
+    rw [lower_append, lower_append, hlow]
+    intro hm
+    rcases List.mem_append.mp hm with h12 | h3
+    · rcases List.mem_append.mp h12 with h1 | h2
+      · exact hb.1 h1
+      · revert h2; rw [lower_defaultsTo]; decide
+    · exact hval h3
+  rw [hasParenAnnounce_false _ hp]
+  simp only [Bool.false_eq_true, if_false]
+  rw [locate_emitted b _ hb]
+  have htake := takeDefault_float (c :: a) f hca hf hfne
+  simp only [List.cons_append] at htake
+  obtain ⟨l, hl, hld⟩ : ∃ l, (c :: (a ++ '.' :: f)).getLast? = some l ∧ l.isDigit = true := by
+    cases hr : f.getLast? with
+    | none => exact absurd (List.getLast?_eq_none_iff.mp hr) hfne
+    | some l =>
+      refine ⟨l, ?_, hf l (List.mem_of_getLast? hr)⟩
+      have : (c :: (a ++ '.' :: f)) = (c :: a ++ ['.']) ++ f := by simp
+      rw [this, List.getLast?_append, hr]; rfl
+  have hstrip := stripChars_id c (a ++ '.' :: f) [' ', '\t', '`'] l hl (digit_not_strip c hc) (digit_not_strip l hld)
+  have hparse := parse_float_text c a f hc ha hf hfne
+  simp only [List.cons_append] at hparse
+  simp only [drop_emitted, List.cons_append, htake, hstrip, hparse, if_true]
+
 /-! ### non-vacuity -/
 example : GoodBase ['t', 'h', 'e', ' ', 'x', '.'] := by
   constructor
